@@ -373,17 +373,26 @@ func (h Handler) buildEnv(r *http.Request, rule Rule, fpath string) (map[string]
 		}
 	}
 
-	// Add env variables from config (with support for placeholders in values)
-	replacer := httpserver.NewReplacer(r, nil, "")
-	for _, envVar := range rule.EnvVars {
-		env[envVar[0]] = replacer.Replace(envVar[1])
-	}
-
 	// Add all HTTP headers to env variables
 	for field, val := range r.Header {
 		header := strings.ToUpper(field)
 		header = headerNameReplacer.Replace(header)
-		env["HTTP_"+header] = strings.Join(val, ", ")
+		sep := ", "
+		if field == "Cookie" {
+			// several Cookie lines make one cookie string (RFC 6265 5.4);
+			// joined with a comma the first cookie would swallow the rest
+			sep = "; "
+		}
+		env["HTTP_"+header] = strings.Join(val, sep)
+	}
+
+	// Add env variables from config (with support for placeholders in
+	// values). They come last: what the operator configures (also under
+	// an HTTP_* name, such as HTTP_X_FORWARDED_PROTO or an emptied
+	// HTTP_PROXY) is not for a client's header to replace.
+	replacer := httpserver.NewReplacer(r, nil, "")
+	for _, envVar := range rule.EnvVars {
+		env[envVar[0]] = replacer.Replace(envVar[1])
 	}
 	return env, nil
 }
